@@ -337,7 +337,9 @@ static long eval_const_expr(Token **rest, Token *tok) {
   }
 
   Token *rest2;
+  in_pp_const_expr = true;
   long val = const_expr(&rest2, expr);
+  in_pp_const_expr = false;
   if (rest2->kind != TK_EOF)
     error_tok(rest2, "extra token");
   return val;
